@@ -645,7 +645,11 @@ class Typer:
                     rt = self.ann(g.node.returns, g.module)
                     if _is_generator(g):
                         pass
+                    if not rt and not _is_generator(g):
+                        rt = self.inferred_return(g)
                     out |= rt
+                elif not isinstance(g.node, ast.Lambda) and not _is_generator(g):
+                    out |= self.inferred_return(g)
                 elif isinstance(g.node, ast.Lambda):
                     out |= self.type_of(g, g.node.body)
             elif a[0] == "ext":
@@ -656,6 +660,25 @@ class Typer:
                         continue
                 out.add(("ext", a[1] + "()"))
         return frozenset(out)
+
+    def inferred_return(self, g: FuncInfo) -> frozenset:
+        """Type of a package function that says nothing useful about its result
+        (no annotation, ``Any``): the union of the types of the expressions it
+        returns.  Recursion answers EMPTY."""
+        cache = self.__dict__.setdefault("_inferred_returns", {})
+        if g in cache:
+            return cache[g] or EMPTY
+        cache[g] = None
+        out = set()
+        try:
+            env = self.env(g)
+            for n in own_nodes(g.node):
+                if isinstance(n, ast.Return) and n.value is not None:
+                    out |= self.type_of(g, n.value, env)
+        except RecursionError:
+            out = set()
+        cache[g] = frozenset(out)
+        return cache[g]
 
     # ------------------------------------------------------------ resolution
     def by_name(self, name: str) -> list:
